@@ -717,7 +717,10 @@ where
         let id = match code {
             Code::Terminal => 1,
             Code::AbsoluteID => decode_7bit(input)?,
-            Code::RelativeID => node_id - decode_7bit(input)?,
+            Code::RelativeID => match node_id.checked_sub(decode_7bit(input)?) {
+                Some(id) => id,
+                None => return err("then/else ID out of range"),
+            },
             Code::Relative1 => node_id - 1,
         };
         if id == 0 {
